@@ -106,11 +106,12 @@ func vpC09_O1() {
 	upd := h.update(i0, i1)
 
 	oldU, oldE, oldSacc, oldIndex := wit.U, wit.E, wit.SignedAccumulator, wit.SignedAccumulator.Accumulator.Index
+	oldUpdated := wit.Updated
 	err := wit.Update(h.pk, upd)
 	newIndex := wit.SignedAccumulator.Accumulator.Index
 	vpAssert("witness never moves backwards", newIndex >= oldIndex)
 	if err != nil {
-		vpAssert("failed update leaves the witness unchanged", wit.U == oldU && wit.E == oldE && wit.SignedAccumulator == oldSacc)
+		vpAssert("failed update leaves the witness unchanged", wit.U == oldU && wit.E == oldE && wit.SignedAccumulator == oldSacc && wit.Updated == oldUpdated)
 	}
 	switch {
 	case i1 <= w:
